@@ -17,7 +17,10 @@ MANIFEST = dict(
          "that is not a declared name and for non-string JSON / non-[]byte SQL input; decode(encode(c)) = c for every declared c. Tied to the code by "
          "running the rebuilt `shoot enum` with all 2^3 codec flag sets (+ -gorm against a stub module), compiling, and calling the real encoding/json, "
          "encoding.Text*, database/sql/driver and the shoot helpers on declared names, case variants, prefixed names, decimals, empty, near misses, "
-         "non-string JSON, non-[]byte SQL and a window of integers; IsEnum over all 10 integer types TV.",
+         "non-string JSON, non-[]byte SQL and a window of integers; IsEnum over all 10 integer types TV. Stated over the running program as well: "
+         "for EVERY history of calls the result list is the list of the property's answers (C12_history, induction over the call list; the helpers are "
+         "read-only on any tables), exercised by a generated call history per case followed by a re-observation of every getter; which method groups a "
+         "command line yields (-gorm only with -sql, -bit = -bitwise) is a theorem over the model of ParseFlags.",
     note="Lean kernel + standard axioms; encoding/json string encode/decode and the SQL text transport are externals.",
     technique="Lean 4 proof (association-list lemmas over the sorted constant table) + differential correspondence on generated enums",
     design="5/C12")
@@ -191,7 +194,10 @@ def run(ctx, obl):
                 "with the type prefix, decimal strings of declared values, empty, blanks, near misses, a \\u-escaped JSON spelling, non-string JSON "
                 "(null, numbers, bools, arrays, objects), non-[]byte SQL values (string, int64, nil, float64, bool, time.Time, the enum itself), with a "
                 "decoder inputs include LISTS of declared names (\"A, B\", \"A,B\", \"A , B\", \"A|B\", \"A B\", three names), rejected like any undeclared string; "
-                "after the whole history of decoder calls Values/Strings/ValueMap/StringMap are observed again (C04's agreement, `*2` keys); "
+                "a generated CALL HISTORY (18+ calls in random order: IsEnum[T, TV] with declared / undeclared values, ParseEnum, TryParseEnum, the getters, String, "
+                "IsValid and - by flag - json.Unmarshal / UnmarshalText / Scan with declared and undeclared input and the three encoders; every result asserted, keys "
+                "h<j>) runs after the decoder probes, then Values/Strings/ValueMap/StringMap and String/IsValid over the encoder values are observed again (`*2` keys); "
+                "behaviour-neutral flags (-v/-verbose, -ver=/-version=, -sep/-separate) are a dimension of every run; "
                 "preset non-zero undeclared target; every codec is exercised as a HISTORY in one process: encode and round-trip, overwrite in place every []byte the "
                 "encoders handed out (MarshalJSON, json.Marshal, MarshalText, Value), then encode and round-trip again (`*.enc2`, `*.rt2`: same expectation); IsEnum[T, int64/uint64] on a window of integers (min-3..max+3, gaps, type min/max) and, as a "
                 "separate case, IsEnum[T, TV] for all 10 integer types TV on declared values, the integers that wrap onto them in T, their "
